@@ -231,16 +231,28 @@ pub fn run(tier: Tier) -> Outcome {
             }
         }
     }
-    // reduce-only collateral: worthless for new borrowing, still counted against liquidation
-    {
+    // reduce-only collateral: worthless for new borrowing, still counted against liquidation; also when the
+    // borrowed bank grants the collateral's e-mode tag a favourable weight
+    for with_emode in [false, true] {
         let mut s = e.s.clone();
+        if with_emode {
+            let ent = |tag: u16, i: f64, m: f64| marginfi_type_crate::types::EmodeEntry { collateral_bank_emode_tag: tag, flags: 0, pad0: [0; 5], asset_weight_init: fixed::types::I80F48::from_num(i).into(), asset_weight_maint: fixed::types::I80F48::from_num(m).into() };
+            let mut arr = [ent(0, 0.0, 0.0); marginfi_type_crate::types::MAX_EMODE_ENTRIES];
+            let ok0 = process_tx(&mut s, &Tx::one(ix::configure_bank_emode(e.w.group, e.w.roles.emode, e.w.banks[0].key, 7, arr), &[e.w.roles.emode])).ok();
+            arr[0] = ent(7, 0.9, 0.95);
+            let ok1 = process_tx(&mut s, &Tx::one(ix::configure_bank_emode(e.w.group, e.w.roles.emode, e.w.banks[1].key, 0, arr), &[e.w.roles.emode])).ok();
+            if !(ok0 && ok1) {
+                *classes.entry("reduce_only_valuation:emode_unbuildable".into()).or_insert(0) += 1;
+                continue;
+            }
+        }
         set_state(&mut s, &e, 0, BankOperationalState::ReduceOnly);
         let mut t = s.clone();
         let rb = act::apply(&e.w, &mut t, &Action::Borrow { u: 0, b: 1, amt: 10 });
         let mut t2 = s.clone();
         let rl = act::apply(&e.w, &mut t2, &Action::Liquidate { liquidator: 1, liquidatee: 0, asset: 0, liab: 1, amt: 1000 });
         cells += 2;
-        *classes.entry(format!("reduce_only_valuation:borrow_{}:liquidate_{}", crate::svm::err_name(rb.code), crate::svm::err_name(rl.code))).or_insert(0) += 1;
+        *classes.entry(format!("reduce_only_valuation:{}:borrow_{}:liquidate_{}", if with_emode { "emode_pair" } else { "plain" }, crate::svm::err_name(rb.code), crate::svm::err_name(rl.code))).or_insert(0) += 1;
         if rb.committed {
             o.found.push(Found { clause: "C14.reduce_only_no_new_borrowing".into(), sig: "borrow".into(), detail: "an account whose only collateral sits in a reduce-only bank could borrow more".into(), replay: json!({"model": "C14RO"}) });
         }
